@@ -88,7 +88,7 @@ CLAIMS = {
              "push-size and compact-size breakpoint; script_size of every fragment equals the encoder's template length "
              "(rule shared with C04); and measured on ~60 whole scripts: the figures computed by evaluating parser + type "
              "checker bound every witness the evaluated satisfier produces (every key subset x preimage set x both modes) "
-             "in element count and bytes, and script_size / pk_cost equal the script's byte length. Every typed leaf constructor of Miniscript (pk_k ... sortedmulti_a, TRUE / FALSE: what parser, decoder and compiler use) attaches the type and figures that from_ast computes for the same node, in every context (shared rule). The public accessors max_satisfaction_size / max_satisfaction_witness_elements return those figures. A Satisfier used as asset provider reports each held signature's real length (taproot: 64 or 65 bytes), which is what a plan's announced witness size sums (rule shared with C17).",
+             "in element count and bytes, and script_size / pk_cost equal the script's byte length. Every typed leaf constructor of Miniscript (pk_k ... sortedmulti_a, TRUE / FALSE: what parser, decoder and compiler use) attaches the type and figures that from_ast computes for the same node, in every context (shared rule). The public accessors max_satisfaction_size / max_satisfaction_witness_elements return those figures. A Satisfier used as asset provider reports each held signature's real length (taproot: 64 or 65 bytes), which is what a plan's announced witness size sums (rule shared with C17). Tr::max_weight_to_satisfy is 66 for a key-only output and otherwise the largest BIP-341 witness weight [elements, script, control block of 33 + 32 x depth] over the satisfiable leaves, on trees of several shapes with per-leaf figures crossing the compact-size breakpoints.",
         note="Trusted: spec/satisfaction.py, spec/script.py, spec/limits.py; rustc THIR. Executed-opcode and exec-stack "
              "depth figures are not decided against an execution.",
         tech=STATIC + "symbolic extraction of accounting rules as max-plus / linear forms, domination check against template images",
@@ -145,7 +145,7 @@ CLAIMS["C20"] = dict(
          "for_each_key and iter_pk visit exactly the multiset of key names of the text and for_each_key reports a "
          "refusal; translate_pk with the identity gives an equal descriptor, with a renaming the descriptor of the "
          "substituted text, twice equals once with the composed mapping, and a mapping failing on any one key fails with "
-         "that error. The generic iterators of iter/tree.rs (post-order, right-to-left post-order, pre-order; their Iterator::next evaluated from source) yield exactly the definition's order, indices and child indices on policy trees and every miniscript fragment, and the analyser's model of them used by the other rules is that behaviour (shared rule).",
+         "that error. The generic iterators of iter/tree.rs (post-order, right-to-left post-order, pre-order; their Iterator::next evaluated from source) yield exactly the definition's order, indices and child indices on policy trees and every miniscript fragment, and the analyser's model of them used by the other rules is that behaviour (shared rule). The Threshold combinators (map, map_ref, translate, translate_ref, translate_by_index, map_from_post_order_iter, forget_maximum, into_data, and_n, or_n) keep k, size and order and apply the function once per element.",
     note="Trusted: model of the generic tree iterators; rustc THIR. Identity / composition laws on deep trees and "
          "derivation-level key behaviour are not re-proved.",
     tech=STATIC + "per-variant structure-preservation table extracted by evaluating THIR on model values; dispatch uniformity over match arms",
@@ -167,7 +167,7 @@ CLAIMS["C16"] = dict(
          "are refused; has_wildcard / is_multipath / into_definite / derive_at_index answer accordingly and "
          "derived_descriptor's keys are derived along exactly those paths; Tr::script_pubkey is OP_1 <output key> and "
          "Tr::address the tweaked-key address of the same key; DescriptorSecretKey::to_public moves exactly the hardened "
-         "prefix into the origin and keeps origin path + path. Descriptor::desc_type / DescriptorType answer the kind the text names (incl. sorted-multi and nested forms).",
+         "prefix into the origin and keeps origin path + path. Descriptor::desc_type / DescriptorType answer the kind the text names (incl. sorted-multi and nested forms). derivation_path(s), DefiniteDescriptorKey::from_str and its accessors / conversions, the secret key's multipath split; find_derivation_index_for_spk as a decision table (first matching index of the range, None, index 0 without wildcard, errors passed on) with DerivationResult and the derived_descriptor / TryFrom glue; into_sorted_bip67(_xonly) / is_sorted_bip67(_xonly) evaluated on all permutations of key sets whose compressed and x-only orders differ.",
     note="Trusted: spec/outputs.py; rust-bitcoin script/address constructors and BIP-32 child derivation modelled as term "
          "constructors; rustc THIR. BIP32 arithmetic and taproot output keys (C15) are not decided.",
     tech=STATIC + "symbolic extraction of output-script terms compared with a standards table; sibling agreement; dispatch uniformity",
